@@ -9,6 +9,7 @@ import (
 	"go/types"
 	"hash/fnv"
 	"os"
+	"os/exec"
 	"regexp"
 	"sort"
 	"strings"
@@ -444,3 +445,19 @@ func (p *Prog) WithFile(file string, content []byte) (*Prog, error) {
 type importerFunc func(path string) (*types.Package, error)
 
 func (f importerFunc) Import(path string) (*types.Package, error) { return f(path) }
+
+func parseFile(fset *token.FileSet, file string) (*ast.File, error) {
+	return parser.ParseFile(fset, file, nil, parser.SkipObjectResolution)
+}
+
+// ModuleDir returns the directory of a module in the module cache (through `go list -m`).
+func (p *Prog) ModuleDir(module string) (string, error) {
+	cmd := exec.Command("go", "list", "-m", "-f", "{{.Dir}}", module)
+	cmd.Dir = p.RepoDir
+	cmd.Env = append(os.Environ(), "GOFLAGS=-mod=mod", "GOPROXY=off", "GOSUMDB=off", "GOTOOLCHAIN=local", "GOWORK=off")
+	out, err := cmd.Output()
+	if err != nil {
+		return "", fmt.Errorf("go list -m %s: %v", module, err)
+	}
+	return strings.TrimSpace(string(out)), nil
+}
